@@ -18,6 +18,7 @@ func init() {
 			c.run("C17-R4", "WHO-CALLS: greetings derive from the transfer's id and port", c17R4)
 			c.run("C17-R5", "GUARD-DOM: in-band bytes are dropped once the tunnel is agreed", c17R5)
 			c.run("C17-R6", "SELECT-ARM/PAIR: bounded wait for the tunnel, fallback keeps the in-band writer", c17R6)
+			c.run("C17-S1", "shared with C13-R5: the tunnel pumps look up their relay per chunk (a finished transfer's tunnel cannot feed the next handshake), park first while handshaking, forward on their own direction", c13R5)
 			c.run("C17-R7", "GUARD-DOM: relay adoption gate", c17R7)
 		})
 }
